@@ -298,12 +298,24 @@ theorem simplify_conditionals_if_sound (pc : Bool) (c t f : E) (env : Env) :
       · simp [eval, this]
     · rfl
 
-/-- KNOWN DEFECT (clean tree): the CASE branch of simplify_conditionals returns the first branch whose condition is
-    a TRUE constant even when an earlier, non-constant branch may fire:
-    `CASE WHEN b THEN 1 WHEN TRUE THEN 2 END → 2`, wrong when `b` is TRUE. -/
-theorem simplify_conditionals_case_counterexample :
-    ∃ e env, eval env (simplifyConditionals false e) ≠ eval env e :=
-  ⟨.case (.cons (.iff (.bcol 0 false) (.int 1) .absent) (.cons (.iff (.bool true) (.int 2) .absent) .nil)) .absent,
+/-- simplify_conditionals (CASE loop as repaired by 9cbbc29, and IF) is exact: a constant-TRUE condition collapses the
+    CASE only when it is the first remaining branch; constant-FALSE/NULL branches are dropped -/
+theorem simplify_conditionals_sound (pc : Bool) (e : E) (env : Env) :
+    eval env (simplifyConditionals pc e) = eval env e := by
+  cases e with
+  | case ifs d => simp only [simplifyConditionals]; rw [caseLoop_sound]; rfl
+  | iff c t f => exact simplify_conditionals_if_sound pc c t f env
+  | _ => rfl
+
+example : simplifyConditionals false (.case (.cons (.iff (.bool false) (.int 1) .absent)
+    (.cons (.iff (.bool true) (.int 2) .absent) .nil)) .absent)
+    = .case (.cons (.iff (.bool true) (.int 2) .absent) .nil) .absent := by decide
+
+/-- why the "first remaining branch" test is needed: the unrepaired loop (`firstOnly = false`, the code before
+    9cbbc29) turns `CASE WHEN b THEN 1 WHEN TRUE THEN 2 END` into `2`, wrong when `b` is TRUE -/
+theorem simplify_conditionals_needs_first_branch :
+    ∃ ifs env, eval env (caseLoop false .absent (listLen ifs + 1) [] ifs) ≠ eval env (.case ifs .absent) :=
+  ⟨.cons (.iff (.bcol 0 false) (.int 1) .absent) (.cons (.iff (.bool true) (.int 2) .absent) .nil),
    ⟨fun _ => some true, fun _ => none⟩, by decide⟩
 
 /-- `COALESCE(x) → x` and `COALESCE(<non-null constant>, …) → <that constant>` are exact -/
@@ -317,6 +329,51 @@ theorem simplify_coalesce_head_sound (fl : Flags) (first rest : E) (env : Env) :
     · subst h; simp only [eval, evalCoalesce]; cases eval env first <;> rfl
     · cases first <;> simp_all [isNonnullConstant, eval, evalCoalesce]
   · rfl
+
+/-- the comparison branch of simplify_coalesce (operand order as repaired by daebc58):
+    `COALESCE(x, …, c, …) op k  →  ((NOT this IS NULL AND COALESCE(x, …) op k) OR (this IS NULL AND c op k))`
+    is exact when the first constant argument `c` is not NULL-valued -/
+theorem simplify_coalesce_cmp_sound (op : Cmp) (left : Bool) (first rest other x : E)
+    (h : coalesceRewrite (some op) left first rest other = some x) (env : Env)
+    (hc : ∀ pre c, splitAtConst rest = some (pre, c) → eval env c ≠ .null) :
+    eval env x = eval env (if left then .cmp op (.coalesce (.cons first rest)) other
+                           else .cmp op other (.coalesce (.cons first rest))) := by
+  unfold coalesceRewrite at h
+  split at h; · cases h
+  cases hs : splitAtConst rest with
+  | none => simp [hs] at h
+  | some pc =>
+    obtain ⟨pre, c⟩ := pc
+    simp only [hs] at h
+    cases h
+    have hsplit := evalCoalesce_split env rest pre c hs (hc pre c hs) first
+    have hthis : eval env (if pre = .nil then first else .coalesce (.cons first pre)) = evalCoalesce env (.cons first pre) := by
+      split
+      · rename_i hp; subst hp; simp only [evalCoalesce]; cases eval env first <;> rfl
+      · rfl
+    generalize hv : evalCoalesce env (.cons first pre) = v at hsplit hthis
+    cases left
+    · simp only [Bool.false_eq_true, if_false, mkCmpLike, eval, eval_mkOr, eval_mkAnd, hthis, hsplit, hv, truth_ofB3]
+      cases v <;> simp [isVal, truth, not3, and3, or3, ofB3_truth_cmpVal] <;>
+        (first | (rw [← ofB3_truth_cmpVal]; cases truth (cmpVal op (eval env other) _) with
+                  | none => rfl
+                  | some b => cases b <;> rfl))
+    · simp only [if_true, mkCmpLike, eval, eval_mkOr, eval_mkAnd, hthis, hsplit, hv, truth_ofB3]
+      cases v <;> simp [isVal, truth, not3, and3, or3, ofB3_truth_cmpVal] <;>
+        (first | (rw [← ofB3_truth_cmpVal]; cases truth (cmpVal op _ (eval env other)) with
+                  | none => rfl
+                  | some b => cases b <;> rfl))
+
+example : coalesceRewrite (some .lt) false (.icol 0 false) (.cons (.int 1) .nil) (.int 2)
+    = some (.paren (mkOr (mkAnd (.not (.is (.icol 0 false) .null)) (.cmp .lt (.int 2) (.coalesce (.cons (.icol 0 false) .nil))))
+                         (mkAnd (.is (.icol 0 false) .null) (.cmp .lt (.int 2) (.int 1))))) := by decide
+
+/-- KNOWN FINDING (clean tree): the "first constant argument" may be the NULL literal, and then the arguments after it
+    are lost: `COALESCE(x, NULL, y) = 1` becomes `(NOT x IS NULL AND x = 1) OR (x IS NULL AND NULL = 1)` -/
+theorem simplify_coalesce_null_constant_counterexample :
+    ∃ e env, eval env (simplifyCoalesce ⟨false, false⟩ e) ≠ eval env e :=
+  ⟨.cmp .eq (.coalesce (.cons (.icol 0 false) (.cons .null (.cons (.icol 1 false) .nil)))) (.int 1),
+   ⟨fun _ => none, fun k => if k = 1 then some 1 else none⟩, by decide⟩
 
 /-- the step checker is sound: an accepted step has the same 3-valued truth value under every assignment … -/
 theorem checkStep_sound (c : Cmp → Cmp) (hc : InverseOK c) (r : Rule) (a b : E) (h : checkStep c r a b = true)
